@@ -26,6 +26,7 @@ import rlex  # noqa: E402
 
 import threading
 BUILD_LOCK = threading.Lock()
+KANI_PROPS = ('C02', 'C03', 'C04', 'C08', 'C17')
 PROPS = json.load(open(os.path.join(VERIF, 'props.json')))
 ALL_FEATURE_SETS = [tuple(f for f, b in zip(mirror.ALL_FEATURES, bits) if b)
                     for bits in [(1, 1, 1), (0, 1, 1), (1, 0, 1), (1, 1, 0), (0, 0, 1), (0, 1, 0), (1, 0, 0), (0, 0, 0)]]
@@ -563,6 +564,14 @@ def decide(pid, cfg, tier, seed, units, work, ev):
                 other = sorted((x['function'], x['message'], x['clause']) for x in f2)
                 if base != other:
                     extra_undec.append('unstable proof: result differs under smt.random_seed=%d' % (seed * 7 + k))
+            if pid in KANI_PROPS and not os.environ.get('VERIF_NO_KANI'):
+                # Kani harnesses on the real functions: full-domain ones are complete proofs against core's own UTF-8
+                # code, the raw-pointer ones are bounded stand-ins (labelled)
+                try:
+                    import kani_run
+                    extra_cov['kani'] = kani_run.run(work, pid)
+                except Exception as e:
+                    extra_cov['kani'] = [{'harness': '*', 'status': 'error', 'tail': str(e)[-500:]}]
             n, vac = vacuity_run(text, linemap, mods, units, sub)
             extra_cov['vacuity_guard'] = {'functions_with_assert_false_at_entry': n, 'verified_anyway': vac,
                                           'meaning': 'assert(false) at the entry of every function under contract must fail'}
@@ -652,6 +661,23 @@ def decide(pid, cfg, tier, seed, units, work, ev):
     if not fn_rows and not all_undec:
         print('UNDECIDED property=%s no obligations generated' % pid)
         return 2
+    kani_failed = [k for k in extra_cov.get('kani', []) if k.get('status') == 'failed']
+    for k in extra_cov.get('kani', []):
+        if k.get('status') in ('error', 'timeout'):
+            print('NOTE kani harness %s: %s (not counted)' % (k['harness'], k['status']))
+    if kani_failed and not mine:
+        ev['violations'] = len(kani_failed)
+        rdir = os.path.join(VERIF, 'replays') if 'VERIF_NO_EVIDENCE' not in os.environ else os.path.join(work, 'replays')
+        os.makedirs(rdir, exist_ok=True)
+        rpath = os.path.join(rdir, '%s-kani-%s.json' % (pid, kani_failed[0]['harness']))
+        json.dump({'property': pid, 'failed_obligations': [
+            {'obligation': 'kani harness %s (%s, %s)' % (k['harness'], k['kind'], k['bound']), 'clause': '; '.join(k['failed_checks']),
+             'tags': [pid], 'verifier_output': k.get('concrete_playback', '')} for k in kani_failed], 'witness': None}, open(rpath, 'w'), indent=1)
+        for k in kani_failed:
+            print('failed obligation: kani harness %s :: %s' % (k['harness'], '; '.join(k['failed_checks'])[:200]))
+        has_cex = any(k.get('concrete_playback') for k in kani_failed)
+        print('VIOLATION property=%s replay=%s%s' % (pid, rpath, '' if has_cex else ' no-failing-input-found'))
+        return 1
     if mine:
         # known findings
         unknown = []
